@@ -22,10 +22,15 @@ CHECKS = {
              "letter case, 1..4 points, plus the instrument text layouts. TLC checks that every header row is detected as intended and "
              "that sweep splitting partitions every frequency sequence (or refuses it). Each configuration (a stated fraction, chosen "
              "with the seed) is written as a real file and parsed with parse_data: number of data sets, frequencies, impedances and the "
-             "sign of Im must match; the table printed by the CLI 'parse' command is re-parsed.",
+             "sign of Im must match; the table printed by the CLI 'parse' command is re-parsed. specs/Dispatch.tla models parse_data's "
+             "dispatch (file_format / extension resolution, the csv retry, the brute-force loop over a *set* of parsers whose order "
+             "differs between processes); what each parser does with each kind of content is measured from the tree under test and "
+             "handed to TLC, which explores every brute-force order (WinnerIsRight, Recognised, GarbageRefused); every (content, "
+             "extension, file_format) configuration is then run through parse_data with the parser calls recorded and validated by TLC "
+             "(TraceDispatch.tla).",
         design_ref="§4 C06",
         note="One family of spectra; pandas' tokenising is exercised but not modelled; instrument files are written from the structure of tests/data.*; header text is space-free for space/semicolon separated files (documented contract).",
-        technique="TLA+ spec (Table.tla) + TLC enumeration of header rows and file options; spec->code replay by writing every configuration to a real file and parsing it",
+        technique="TLA+ spec (Table.tla, Dispatch.tla) + TLC enumeration of header rows, file options, dispatch configurations and brute-force orders; spec->code replay by writing every configuration to a real file and parsing it; code->spec batched trace validation of the recorded parser calls (TraceDispatch.tla)",
     ),
     "C08": dict(
         text="specs/Analysis.tla states the life cycle of an analysis call over DataSet.tla's abstraction (reads only through the unmasked "
